@@ -279,6 +279,47 @@ def minimise(scenario, prop, seed, run, tier, choices, klass, root=None, max_exe
 	if best_res is None:
 		return choices, None, n_exec
 
+	# 0. structured deletion: scenarios draw one block of choices per command / execution / operation, labelled
+	#    '<letter><index>.<what>' (c3.fmt, e0.mode, o5.kind ...), preceded by a counter (n_cmd, n_exec, n_ops, n_steps).
+	#    Removing a whole block and decrementing the counter keeps every other block aligned.
+	import re as _re
+	COUNTERS = ('n_cmd', 'n_exec', 'n_ops', 'n_steps', 'n_exec_large')
+
+	def blocks(seq):
+		out, cur, cur_key = [], None, None
+		for i, c in enumerate(seq):
+			m = _re.match(r'^([a-z]+)(\d+)\.', str(c[0]))
+			if m and m.group(1) in ('c', 'e', 'o', 's', 'w'):
+				key = (m.group(1), m.group(2))
+				if key != cur_key:
+					if cur is not None:
+						out.append(cur)
+					cur, cur_key = [i, i + 1], key
+				else:
+					cur[1] = i + 1
+			elif cur is not None:
+				cur[1] = i + 1          # unlabelled draws (scheduler picks, quanta) belong to the block before them
+		if cur is not None:
+			out.append(cur)
+		return out
+
+	progress = True
+	while progress and n_exec < max_exec and time.monotonic() - t0 <= max_s:
+		progress = False
+		bl = blocks(best)
+		cidx = [i for i, c in enumerate(best) if c[0] in COUNTERS and c[2] > 0]
+		if not bl or not cidx:
+			break
+		for a, b in reversed(bl):
+			ci = max([i for i in cidx if i < a], default=None)
+			if ci is None:
+				continue
+			cand = [list(c) for c in best[:a]] + [list(c) for c in best[b:]]
+			cand[ci][2] -= 1
+			if attempt(cand):
+				progress = True
+				break
+
 	improved = True
 	while improved and n_exec < max_exec and time.monotonic() - t0 <= max_s:
 		improved = False
